@@ -201,6 +201,9 @@ func populate(t *testing.T, r *rand.Rand, root string, variant int) world {
 	case 5:
 		w.kind = "dangling-symlink"
 		must(os.Symlink("out/none", T))
+	case 7:
+		w.kind = "symlink-to-outside-file"
+		must(os.Symlink("out/f", T))
 	case 6:
 		w.kind = "nested"
 		must(os.MkdirAll(filepath.Join(B, "p", "q"), 0o755))
@@ -464,7 +467,41 @@ func genEntries(r *rand.Rand, w world) []ent {
 	return es
 }
 
+// How the extraction root is spelled in Extractor.Path. All spellings denote the same cleaned path (which is what
+// the model is given); an extractor that does not clean it hands `target/` or `target/.` to lstat/mkdir/chmod, which
+// the kernel resolves THROUGH a symlink sitting at the target.
+var spellings = []string{"clean", "trailing-slash", "trailing-double-slash", "doubled-separator", "dot-element", "dotdot-element", "trailing-slash-dot", "dot-and-trailing-slash"}
+
+func spell(base string, k int) string {
+	dir, last := filepath.Dir(base), filepath.Base(base)
+	switch k {
+	case 1:
+		return base + "/"
+	case 2:
+		return base + "//"
+	case 3:
+		return dir + "//" + last
+	case 4:
+		return dir + "/./" + last
+	case 5:
+		return dir + "/../" + filepath.Base(dir) + "/" + last
+	case 6:
+		return base + "/."
+	case 7:
+		return dir + "/./" + last + "/"
+	}
+	return base
+}
+
 func runCase(t *testing.T, e *vh.Env, cs *vh.Cases, st *vh.Stats, variant int, gen func(w world) []ent, tag string) {
+	k := 0
+	if e.Rng.Intn(2) == 0 {
+		k = e.Rng.Intn(len(spellings))
+	}
+	runCaseSpelled(t, e, cs, st, variant, k, gen, tag)
+}
+
+func runCaseSpelled(t *testing.T, e *vh.Env, cs *vh.Cases, st *vh.Stats, variant, spelling int, gen func(w world) []ent, tag string) {
 	w := populate(t, e.Rng, t.TempDir(), variant)
 	es := gen(w)
 	archive, err := buildArchive(es, w.R)
@@ -478,12 +515,13 @@ func runCase(t *testing.T, e *vh.Env, cs *vh.Cases, st *vh.Stats, variant int, g
 		return
 	}
 	before := snapshot(t, w.R)
-	te := &boxotar.Extractor{Path: filepath.Join(append([]string{w.R}, w.target...)...)}
+	te := &boxotar.Extractor{Path: spell(filepath.Join(append([]string{w.R}, w.target...)...), spelling)}
 	xerr := te.Extract(bytes.NewReader(archive))
 	after := snapshot(t, w.R)
 	term := "(CExt " + fsCoq(before) + " " + pathCoq([]string{"B"}) + " " + pathCoq(w.target) + " " + vh.List(terms) + " " +
 		vh.Bool(xerr != nil) + " " + fsCoq(after) + ")"
-	rp := map[string]any{"target": w.kind, "entries": descs, "from": tag}
+	rp := map[string]any{"target": w.kind, "path_spelling": spellings[spelling], "entries": descs, "from": tag}
+	st.Count("path/" + spellings[spelling])
 	cs.Add(term, rp)
 	nsym, ndir := 0, 0
 	for _, d := range descs {
@@ -494,7 +532,7 @@ func runCase(t *testing.T, e *vh.Env, cs *vh.Cases, st *vh.Stats, variant int, g
 			ndir++
 		}
 	}
-	st.Case(w.kind+"|"+strings.Join(descs, ";"), len(descs) >= 3 && nsym >= 1 && ndir >= 1)
+	st.Case(w.kind+"|"+spellings[spelling]+"|"+strings.Join(descs, ";"), len(descs) >= 3 && nsym >= 1 && ndir >= 1)
 	st.Count("target/" + w.kind)
 	st.Count(fmt.Sprintf("entries=%d", len(descs)))
 	if xerr != nil {
@@ -517,7 +555,8 @@ func TestC38(t *testing.T) {
 		"dot, dot-dot, other root, over-long; symlinks whose name is derived from a later file entry's name (X.partial, X.tmp, X~, .X.swp, ...) " +
 		"pointing outside, also pre-existing in the target; modes incl. 0, setuid/setgid/sticky and the 0x100000 bit; mtimes incl. 0 and negative) " +
 		"extracted by the real Extractor into a fresh / pre-populated (files, directories, symlinks to outside, dangling, self) / file / " +
-		"symlink / nested target, with lstat snapshots (type, mode, mtime, link target, content) of the whole base directory before and after. " +
+		"symlink (to an outside directory / outside file / nowhere) / nested target, with Extractor.Path spelled clean, with trailing " +
+		"or doubled separators, with . and .. elements, and with lstat snapshots (type, mode, mtime, link target, content) of the whole base directory before and after. " +
 		"non-trivial = >= 3 entries with a directory and a symlink; distinct by (target kind, entries)")
 	cs := vh.NewCases(e, "From V Require Import lib.FsModel model.M_C38.\nOpen Scope Z_scope.", "case", "check_case", 100)
 
@@ -564,12 +603,23 @@ func TestC38(t *testing.T) {
 		{0, func(w world) []ent { return []ent{D("r", 0o755), L("r/l", ""), D("r/z", 0o700)} }},
 		{6, func(w world) []ent { return []ent{D("r", 0o755), D("r/d", 0o700), L("r/d", "../lnk")} }},
 	}
+	// directed, first for every seed: every spelling of the root x a target that is a symlink to an outside directory /
+	// outside file / nowhere (and a plain fresh one) x a root-directory archive and a single-file archive
+	for sp := range spellings {
+		for _, variant := range []int{4, 7, 5, 0} {
+			runCaseSpelled(t, e, cs, st, variant, sp, func(w world) []ent {
+				return []ent{D("r", 0o700), F("r/x", 0o644, 1), D("r/sub", 0o711)}
+			}, fmt.Sprintf("root-spelling/%s/dir-archive", spellings[sp]))
+			runCaseSpelled(t, e, cs, st, variant, sp, func(w world) []ent { return []ent{F("r", 0o640, 2)} },
+				fmt.Sprintf("root-spelling/%s/file-archive", spellings[sp]))
+		}
+	}
 	for i, c := range corpus {
-		runCase(t, e, cs, st, c.variant, c.es, fmt.Sprintf("corpus%d", i))
+		runCaseSpelled(t, e, cs, st, c.variant, 0, c.es, fmt.Sprintf("corpus%d", i))
 	}
 	n := e.Pick(500, 5000)
 	for i := 0; i < n; i++ {
-		variant := []int{0, 0, 0, 1, 1, 1, 2, 2, 3, 4, 5, 6, 6}[e.Rng.Intn(13)]
+		variant := []int{0, 0, 0, 1, 1, 1, 2, 2, 3, 4, 4, 5, 6, 6, 7}[e.Rng.Intn(15)]
 		runCase(t, e, cs, st, variant, func(w world) []ent { return genEntries(e.Rng, w) }, "gen")
 	}
 	cs.Close()
